@@ -335,6 +335,13 @@ class EqWorld(World):
             o = it.rv(it.eval(obj, frame))
             if isinstance(o, Table) and name in ("operator()", "flat", "operator[]", "at"):
                 return ElemRef(o, tuple(it.rv(it.eval(a, frame)) for a in args))
+            if isinstance(o, Table) and name == "shape":
+                # (nodes, columns): one column for a graph whose operators are all single-direction, the
+                # maximum neighbour count for a graph that is multi-direction at some stage
+                sh = [100] if o.name == "c" else [100, getattr(self, "ncols", None) or max(1, len(self.recs))]
+                if args:
+                    return sh[it.rv(it.eval(args[0], frame))]
+                return PyVec(sh)
             if isinstance(o, Sym) and o.kind == "elevarray":
                 i = it.rv(it.eval(args[0], frame))
                 return self.v["h"] if i == QNODE else self.v["e%d" % i]
@@ -383,7 +390,7 @@ def eq_values(recs, n_rep):
     return v
 
 
-def run_equation(er, recs, linear, n_value=None, zero=None):
+def run_equation(er, recs, linear, n_value=None, zero=None, ncols=None):
     """zero: None | "K" | "dt" -- that factor is exactly 0 (no erodibility / no time)"""
     v = eq_values(recs, 1.0 if linear else 1.7)
     if n_value is not None:
@@ -393,6 +400,7 @@ def run_equation(er, recs, linear, n_value=None, zero=None):
     if zero == "dt":
         v["dt"] = Dual.of(0)
     w = EqWorld(recs, v)
+    w.ncols = ncols
     R, C, D, Wt = (Table(x) for x in ("r", "c", "d", "w"))
     C[(QNODE,)] = len(recs)
     for j, r in enumerate(recs):
@@ -454,31 +462,38 @@ def equation_rules(db, chk):
                    function=er.bn, construct="closed-form(%d)" % len(recs), detail="; ".join(bad)[:400],
                    extra={"unit": uname})
         # ---- Q2: Newton residual of the non-linear case (single receiver)
-        n += 1
-        w, v, status = run_equation(er, [20], False)
-        bad = []
-        if status.startswith("threw"):
-            bad.append(status)
-        F = ratfun.binop("/", ratfun.binop("*", ratfun.binop("*", v["K"], v["dt"]),
-                                           ratfun.upow(ratfun.binop("*", v["A"], v["w20"]), v["m"])),
-                         ratfun.upow(v["d20"], v["n"]))
-        d0 = ratfun.binop("-", v["h"], ratfun.binop("-", v["e20"], v["ero20"]))
+        # (a single-direction final state may live in multi-column tables -- a multi router earlier in the
+        # sequence --: the equation solved must not depend on the table width)
+        for ncols in (1, 8):
+            n += 1
+            w, v, status = run_equation(er, [20], False, ncols=ncols)
+            bad = []
+            if status.startswith("threw"):
+                bad.append(status)
+            F = ratfun.binop("/", ratfun.binop("*", ratfun.binop("*", v["K"], v["dt"]),
+                                               ratfun.upow(ratfun.binop("*", v["A"], v["w20"]), v["m"])),
+                             ratfun.upow(v["d20"], v["n"]))
+            d0 = ratfun.binop("-", v["h"], ratfun.binop("-", v["e20"], v["ero20"]))
 
-        def resid(d):
-            return ratfun.binop("-", ratfun.binop("+", d, ratfun.binop("*", F, ratfun.upow(d, v["n"]))), d0)
-        f1 = resid(d0)
-        deriv1 = ratfun.binop("+", Dual.of(1), ratfun.binop("/", ratfun.binop("*", v["n"], ratfun.binop(
-            "*", F, ratfun.upow(d0, v["n"]))), d0))
-        d1 = ratfun.binop("-", d0, ratfun.binop("/", f1, deriv1))
-        f2 = resid(d1)
-        obs = w.tol_tests
-        if len(obs) < 2 and not bad:
-            bad.append("fewer than two residual evaluations observed (%d)" % len(obs))
-        for k, (o, want) in enumerate(zip(obs, (f1, f2))):
-            if not (o.same(want) or o.same(want.neg())):
-                bad.append("residual #%d is not delta + F*delta^n - delta_0 with F = K*dt*(A*w)^m/d^n "
-                           "(delta_1 = delta_0 - f/f'): got %r" % (k + 1, o))
-                break
+            def resid(d):
+                return ratfun.binop("-", ratfun.binop("+", d, ratfun.binop("*", F, ratfun.upow(d, v["n"]))), d0)
+            f1 = resid(d0)
+            deriv1 = ratfun.binop("+", Dual.of(1), ratfun.binop("/", ratfun.binop("*", v["n"], ratfun.binop(
+                "*", F, ratfun.upow(d0, v["n"]))), d0))
+            d1 = ratfun.binop("-", d0, ratfun.binop("/", f1, deriv1))
+            f2 = resid(d1)
+            obs = w.tol_tests
+            if len(obs) < 2 and not bad:
+                bad.append("fewer than two residual evaluations observed (%d)" % len(obs))
+            for k, (o, want) in enumerate(zip(obs, (f1, f2))):
+                if not (o.same(want) or o.same(want.neg())):
+                    bad.append("residual #%d is not delta + F*delta^n - delta_0 with F = K*dt*(A*w)^m/d^n "
+                               "(delta_1 = delta_0 - f/f'): got %r" % (k + 1, o))
+                    break
+            chk.ob("C13-Q2", "[%s] non-linear case, single direction in %d-column tables: the first two Newton "
+                   "residuals are those of the discrete equation (symbolic identity)" % (uname, ncols), not bad,
+                   where=er.ploc, function=er.bn, construct="newton-residual(%d)" % ncols, detail="; ".join(bad)[:400],
+                   extra={"unit": uname})
         # ---- Q3: zero erodibility / zero time step, for ordinary and "special" exponents
         for n_val, lin in ((1.0, True), (1.7, False), (2.0, False), (0.5, False), (3.0, False)):
             for zero in ("K", "dt"):
@@ -500,7 +515,4 @@ def equation_rules(db, chk):
                 chk.ob("C13-Q3", "[%s] slope exponent %g, %s = 0: zero erosion, no division by the vanishing factor"
                        % (uname, n_val, zero), not bad3, where=er.ploc, function=er.bn, construct="zero-factor",
                        detail="; ".join(bad3)[:300], extra={"unit": uname})
-        chk.ob("C13-Q2", "[%s] non-linear case: the first two Newton residuals are those of the "
-               "discrete equation (symbolic identity)" % uname, not bad, where=er.ploc, function=er.bn,
-               construct="newton-residual", detail="; ".join(bad)[:400], extra={"unit": uname})
     return n
